@@ -187,4 +187,120 @@ theorem copyFiles_spec (h : Host) : ∀ (fs : List (Path × Option Path)) (t : T
           have : ¬ x = f.1 := fun hh => hx hh.symm
           simp [hg1, this]
 
+/-! ### without any assumption on what is there already: what a *successful* run leaves -/
+
+/-- `Mkdir` on a path that exists (as a file or a directory) changes nothing -/
+theorem mkdirs_ok_spec : ∀ (ds : List Path) (t t' : Tree), (∀ d ∈ ds, d ≠ []) → mkdirs t ds = some t' →
+    ∀ x, t'.get x = if x ∈ ds ∧ t.get x = none then some .dir else t.get x := by
+  intro ds
+  induction ds with
+  | nil => intro t t' _ h x; simp [mkdirs] at h; subst h; simp
+  | cons d ds ih =>
+    intro t t' hne h x
+    simp only [mkdirs] at h
+    cases h1 : mkdir t d with
+    | none => rw [h1] at h; cases h
+    | some t1 =>
+      rw [h1] at h
+      simp only [Option.bind] at h
+      have hd : d ≠ [] := hne d (List.mem_cons_self ..)
+      have hg1 : ∀ y, t1.get y = if y = d ∧ t.get y = none then some .dir else t.get y := by
+        intro y
+        unfold mkdir at h1
+        split at h1
+        · split at h1
+          · rename_i hnone
+            cases h1
+            rw [Tree.get_set t d y .dir hd]
+            by_cases hy : y = d
+            · subst hy; simp [hnone]
+            · simp [hy]
+          · rename_i e he
+            cases h1
+            by_cases hy : y = d
+            · subst hy; simp [he]
+            · simp [hy]
+        · cases h1
+      rw [ih t1 t' (fun z hz => hne z (List.mem_cons_of_mem _ hz)) h x, hg1 x]
+      by_cases hxd : x = d
+      · subst hxd
+        by_cases hn : t.get x = none
+        · simp [hn]
+        · simp [hn]
+      · simp [hxd]
+
+/-- what `copyFile` leaves at the destination: the new bytes, followed by the tail of a longer file
+that was there (no truncation); an existing directory stays (possible only for an empty source) -/
+def overlay (old : Option Ent) (c : Bytes) : Option Ent :=
+  match old with
+  | none => some (.file c)
+  | some (.file o) => some (.file (c ++ o.drop c.length))
+  | some .dir => some .dir
+
+theorem copyFile_ok_spec (t t' : Tree) (dst : Path) (c : Bytes) (hd : dst ≠ []) (h : copyFile t dst c = some t') :
+    (∀ x, t'.get x = if x = dst then overlay (t.get dst) c else t.get x) ∧ (t.get dst = some .dir → c = []) := by
+  unfold copyFile at h
+  split at h
+  · split at h
+    · rename_i hnone
+      cases h
+      refine ⟨fun x => ?_, fun hh => by rw [hnone] at hh; cases hh⟩
+      rw [Tree.get_set t dst x _ hd, hnone]; rfl
+    · rename_i old hold
+      cases h
+      refine ⟨fun x => ?_, fun hh => by rw [hold] at hh; cases hh⟩
+      rw [Tree.get_set t dst x _ hd, hold]; rfl
+    · rename_i hdir
+      split at h
+      · rename_i hc
+        cases h
+        refine ⟨fun x => ?_, fun _ => hc⟩
+        split
+        · rename_i hx; rw [hx, hdir]; rfl
+        · rfl
+      · cases h
+  · cases h
+
+theorem copyFiles_ok_spec (h : Host) : ∀ (fs : List (Path × Option Path)) (t t' : Tree),
+    (fs.map (·.1)).Nodup → (∀ f ∈ fs, f.1 ≠ []) → copyFiles h t fs = some t' →
+    ∀ x, (t'.get x = match planned h fs x with
+        | some c => overlay (t.get x) c
+        | none => t.get x) ∧
+      (∀ c, planned h fs x = some c → t.get x = some .dir → c = []) := by
+  intro fs
+  induction fs with
+  | nil => intro t t' _ _ hc x; simp [copyFiles] at hc; subst hc; simp [planned]
+  | cons f fs ih =>
+    intro t t' hnd hne hc x
+    simp only [copyFiles] at hc
+    cases h1 : copyFile t f.1 (srcContent h f.2) with
+    | none => rw [h1] at hc; cases hc
+    | some t1 =>
+      rw [h1] at hc
+      simp only [Option.bind] at hc
+      simp only [List.map_cons, List.nodup_cons] at hnd
+      obtain ⟨hg1, hdir1⟩ := copyFile_ok_spec t t1 f.1 _ (hne f (List.mem_cons_self ..)) h1
+      obtain ⟨hg2, hdir2⟩ := ih t1 t' hnd.2 (fun g hg => hne g (List.mem_cons_of_mem _ hg)) hc x
+      unfold planned at hg2 hdir2 ⊢
+      simp only [List.find?_cons]
+      by_cases hx : f.1 = x
+      · have hnone : fs.find? (·.1 = x) = none := by
+          rw [List.find?_eq_none]
+          intro g hg
+          have : g.1 ≠ x := by
+            intro heq; exact hnd.1 (by rw [hx, ← heq]; exact List.mem_map.mpr ⟨g, hg, rfl⟩)
+          simpa using this
+        rw [hnone] at hg2
+        simp only [Option.map_none] at hg2
+        simp only [hx, decide_true, Option.map_some]
+        refine ⟨by rw [hg2, hg1]; simp [hx], ?_⟩
+        intro c hc' hdir
+        simp only [Option.some.injEq] at hc'
+        rw [← hc']; exact hdir1 (by rw [hx]; exact hdir)
+      · simp only [hx, decide_false]
+        have hxf : ¬ x = f.1 := fun hh => hx hh.symm
+        have ht1 : t1.get x = t.get x := by rw [hg1]; simp [hxf]
+        rw [ht1] at hg2 hdir2
+        exact ⟨hg2, hdir2⟩
+
 end ArvVerif.C17
